@@ -8,15 +8,20 @@ ENTRY = dict(
                 "`wrapped = inlined` statement over all block contexts is NOT proved; it is decided per generated pair: every "
                 "case runs the same seeded program with its sub blocks wrapped in 1..3 nested embedded sub-processes and with "
                 "the content inlined, same data and answer policy, on the real engine; each run is replayed in lock-step "
-                "through the engine model and the token game, and the two request histories and final states must coincide."),
+                "through the engine model and the token game, and the two request histories and final states must coincide. "
+                "The inner completion of an activation is the C02 protocol on the inner tracer: at the extracted order of "
+                "the activation's start-up steps (monitor subscribed before the inner start — Props/C12Current) the whole "
+                "C02 statement holds for it; were the order reversed, the kernel-checked missed-start schedule applies and "
+                "the parent waits for ever. Data objects are written and read across the sub-process boundary (D34 found so)."),
     level_note=("partial (named C12_partial): no unbounded inline theorem. Modelled: the inner tracer / relay / completion "
                 "monitor as 'parent resumes when the inner scope is empty'; the race between the inner start-up and the relay's "
-                "subscription (hook point subprocess.run.before_subscribe) is perturbed in the thorough tier only. Two "
+                "subscription (schedule points subprocess.run.before_subscribe / subprocess.monitor.before_subscribe) is forced "
+                "in a third of the paired runs (the monitor / relay held for 20 ms at their subscribe points). Two "
                 "concurrent activations of one sub-process node are outside the model (such runs are skipped and counted)."),
     technique="Lean 4 proof (engine-model lemma + kernel-checked witnesses) + paired wrapped/inlined lock-step replay",
-    lean_modules=["Bpmn.Props.C12", "Bpmn.Props.EngineCurrent"],
+    lean_modules=["Bpmn.Props.C12", "Bpmn.Props.C12Current", "Bpmn.Props.EngineCurrent"],
     families=["c12"],
-    facts_from=["Engine"],
+    facts_from=["Engine", "C12", "C02"],
     rule=("pairs of runs of one seeded block-structured program (tasks, seq, exclusive, parallel, loops, sub blocks; <= 12 "
           "nodes quick, <= 20 thorough; each sub block wrapped in 1..3 nested sub-processes vs inlined), identical variables "
           "and answer order (pending requests sorted by name, seeded choice); non-trivial = the program contains a "
